@@ -5,7 +5,8 @@
    (props/c12.py) and comparing every live field at every coordinate after every operation with
    the value-semantics run. *)
 From Coq Require Import List Arith ZArith.
-From Covfie Require Import Ownership OwnershipProofs.
+From Covfie Require Import Ownership OwnershipProofs Refine_Own.
+From Covfie.gen Require Import Gen_Own.
 Import ListNotations.
 
 (* ANY history that value semantics accepts: no double free, no use after free, no null dereference
@@ -38,5 +39,26 @@ Example C12_example :
                          MoveAssign 1 2; Destroy 2; MoveAssign 0 0; Destroy 0; Destroy 1] = Some a' /\ a' 0 = None /\ a' 1 = None.
 Proof. eexists. split; [reflexivity|]. split; reflexivity. Qed.
 
+(* the special members as they stand in array.hpp on this run (gen/Gen_Own.v): defaulted moves, no destructor, and a copy
+   constructor / copy assignment whose statements, interpreted one by one on the model's heap (each reading the state as it
+   is at that moment), are observationally the model's CopyCtor / copy_assign for EVERY state and pair of slots *)
+Theorem C12_source_special_members :
+  own_move_ctor_defaulted = true /\ own_move_assign_defaulted = true /\ own_dtor_declared = false /\
+  own_copy_assign_guarded = true /\ own_copy_assign_returns_this = true /\
+  own_copy_ctor = [SetSize; Alloc; Assert; Copy] /\ own_copy_assign = [SetSize; Alloc; Assert; Copy].
+Proof. exact source_flags. Qed.
+Theorem C12_copy_assign_is_the_source : forall s d src,
+  opt_st_eq (assign_sem own_copy_assign_guarded own_copy_assign s d src) (copy_assign s d src).
+Proof. exact copy_assign_is_the_source. Qed.
+Theorem C12_copy_ctor_is_the_source : forall s d src,
+  opt_st_eq (ctor_sem own_copy_ctor s d src) (step s (CopyCtor d src)).
+Proof. exact copy_ctor_is_the_source. Qed.
+(* and the self-assignment guard is what the refinement needs: without it the same statements zero the data *)
+Theorem C12_unguarded_self_assignment_refuted :
+  exists s s', run init [Construct 0 [7; 8]%Z] = Some s /\ assign_sem false own_copy_assign s 0 0 = Some s' /\
+               absf s 0 = Some (Full [7; 8]%Z) /\ absf s' 0 = Some (Full [0; 0]%Z).
+Proof. exact unguarded_self_assignment_loses_data. Qed.
+
 Print Assumptions C12_history_refines.
+Print Assumptions C12_copy_assign_is_the_source.
 Print Assumptions C12_no_leak.
